@@ -1242,6 +1242,83 @@ theorem mul_mono_left {a b d : Rat} (hd : 0 ≤ d) (h : a ≤ b) :
     le (roundNE (a * d)) (roundNE (b * d)) = true :=
   le_roundNE_of_le (Rat.mul_le_mul_of_nonneg_right h hd)
 
+/-! #### integers of representable values are representable -/
+
+/-- a representable value is an integer, or smaller than `2^53` in magnitude -/
+theorem rep_int_or_small {v : Rat} (h : Rep v) :
+    (∃ i : Int, v = (i : Rat)) ∨ (-(pow2 53) < v ∧ v < pow2 53) := by
+  obtain ⟨m, K, hm, hK, rfl⟩ := h
+  by_cases hk : 0 ≤ K
+  · left
+    obtain ⟨n, rfl⟩ := Int.eq_ofNat_of_zero_le hk
+    refine ⟨m * ((2 ^ n : Nat) : Int), ?_⟩
+    rw [pow2_natCast, Rat.intCast_mul, Rat.intCast_natCast]
+  · right
+    have hP := pow2_pos K
+    have h1 : pow2 K ≤ 1 := by have := pow2_mono (show K ≤ 0 by omega); rwa [pow2_zero] at this
+    have hm1 : -(pow2 53) < (m : Rat) := by
+      rw [pow2_53, ← Rat.intCast_natCast, ← Rat.intCast_neg]; exact Rat.intCast_lt_intCast.2 (by omega)
+    have hm2 : (m : Rat) < pow2 53 := by
+      rw [pow2_53, ← Rat.intCast_natCast]; exact Rat.intCast_lt_intCast.2 (by omega)
+    have hP53 := pow2_pos 53
+    by_cases h0 : 0 ≤ (m : Rat)
+    · have := Rat.mul_le_mul_of_nonneg_left h1 h0
+      have := Rat.mul_nonneg h0 (Rat.le_of_lt hP)
+      grind
+    · have := Rat.mul_le_mul_of_nonneg_left h1 (show 0 ≤ -(m : Rat) by grind)
+      have := Rat.mul_nonneg (show 0 ≤ -(m : Rat) by grind) (Rat.le_of_lt hP)
+      grind
+
+private theorem WF_int_of_near {q : Rat} {c : Int} (h : WF (.fin q)) (hc0 : c ≠ 0)
+    (hnear : (c : Rat) = q ∨ (-(pow2 53) < q ∧ q < pow2 53 ∧ (c : Rat) - 1 < q ∧ q < (c : Rat) + 1)) :
+    WF (.fin (c : Rat)) := by
+  obtain ⟨hr, hlt, _⟩ := WF.rep h
+  rcases hnear with e | ⟨l, u, cl, cu⟩
+  · rw [e]; exact h
+  · have h1 : ((c - 1 : Int) : Rat) < (((2 ^ 53 : Nat) : Int) : Rat) := by
+      rw [Rat.intCast_sub, Rat.intCast_one, Rat.intCast_natCast, ← pow2_53]; grind
+    have h2 : ((-((2 ^ 53 : Nat) : Int) : Int) : Rat) < ((c + 1 : Int) : Rat) := by
+      rw [Rat.intCast_add, Rat.intCast_one, Rat.intCast_neg, Rat.intCast_natCast, ← pow2_53]; grind
+    have h1' := Rat.intCast_lt_intCast.1 h1
+    have h2' := Rat.intCast_lt_intCast.1 h2
+    have hn : c.natAbs ≤ 2 ^ 53 := by omega
+    have := ofInt_exact hc0 hn
+    have w := WF_ofInt c
+    rwa [this] at w
+
+theorem WF_ceil {x : F64} (h : WF x) : WF (ceil x) := by
+  cases x with
+  | fin q =>
+    simp only [ceil]
+    by_cases hc : q.ceil = 0
+    · rw [if_pos hc]; trivial
+    · rw [if_neg hc]
+      refine WF_int_of_near h hc ?_
+      rcases rep_int_or_small (WF.rep h).1 with ⟨i, rfl⟩ | ⟨l, u⟩
+      · left; rw [Rat.ceil_intCast]
+      · right
+        have a := @Rat.le_ceil q
+        have b := @Rat.ceil_lt q
+        exact ⟨l, u, by grind, by grind⟩
+  | _ => exact h
+
+theorem WF_floor {x : F64} (h : WF x) : WF (floor x) := by
+  cases x with
+  | fin q =>
+    simp only [floor]
+    by_cases hc : q.floor = 0
+    · rw [if_pos hc]; trivial
+    · rw [if_neg hc]
+      refine WF_int_of_near h hc ?_
+      rcases rep_int_or_small (WF.rep h).1 with ⟨i, rfl⟩ | ⟨l, u⟩
+      · left; rw [Rat.floor_intCast]
+      · right
+        have a := Rat.floor_le q
+        have b := Rat.lt_floor_add_one q
+        rw [Rat.intCast_add, Rat.intCast_one] at b
+        exact ⟨l, u, by grind, by grind⟩
+  | _ => exact h
+
 /-! #### `math.Sqrt`: sign and NaN-freeness -/
 
 theorem sqrtRat_arg_nonneg (n : Nat) (k : Int) : 0 ≤ (n : Rat) / pow2 k := by
